@@ -27,7 +27,7 @@ PAYLOADS = (["jt:" + v for v in VALS] + ["js:" + k for k in "TRGS"] + ["ji", "jo
 REP_PAYLOADS = ["jt:P1", "jt:O1", "jt:R1", "jt:G3", "jt:V1", "js:T", "ji", "jo", "np:O1", "nr:J4", "nr:WI6", "nq:E1", "no"]
 
 QUICK_REP = ["jt:O1", "jt:G3", "js:T", "ji", "nr:J4", "no"]
-THOROUGH_REP = ["jt:P1", "jt:O1", "jt:R1", "jt:G3", "js:T", "ji", "nr:J4", "nr:WI6", "no"]
+THOROUGH_REP = ["jt:O1", "jt:R1", "jt:G3", "js:T", "ji", "nr:J4", "no"]
 
 GOVAL = {"G1": "E1", "G3": "W3", "G4": "J4", "G6": "WI6", "V1": "E1"}       # JS values holding a Go error in .value
 IS_BITS = {"E1": "1000000000", "C2": "0100000000", "W3": "0110000000", "J4": "1101000000", "I5": "0000100000",
@@ -191,7 +191,7 @@ def gen_cases(ctx):
     else:
         exhaustive(range(0, 4), ENTRIES, PAYLOADS, "exhaustive depth<=3 x 3 entries x %d payloads" % len(PAYLOADS))
         exhaustive([4], ["RS"], THOROUGH_REP, "exhaustive depth=4 x RS x %d representative payloads" % len(THOROUGH_REP))
-        sampled(200000, 5, 8, "sampled depth 5..8 (all entries, all payloads)")
+        sampled(150000, 5, 8, "sampled depth 5..8 (all entries, all payloads)")
     return itertools.chain(*parts), plan
 
 
